@@ -3,7 +3,8 @@
      Wrapper      src/nanovirt/wrapper_gen.c write_wrapper_c: the generated main has the same three cases
      NanoVmFile   src/nanovm/main.c run_standalone: result != VM_OK -> 1; else 0 -- unless run_standalone consults
                   vm_get_result ([nano_vm_propagates_result], generated from the clang AST), in which case the rule of VirtRun
-     DaemonClient src/nanovm/vmd_server.c VMD_MSG_LOAD_EXEC + main.c run_daemon: exit_code = (result != VM_OK), sent back, returned
+     DaemonClient src/nanovm/vmd_server.c VMD_MSG_LOAD_EXEC + main.c run_daemon: exit_code = (result != VM_OK), sent back, returned;
+                  since repair 77ae0bf an int result of main is sent as (int)i64 & 0xFF ([daemon_propagates_result], generated)
    [main_return] is the int returned from main; [exit_status] is what the parent observes (low 8 bits).
    Only the status after a successful load + verify is modelled (all runners return 1 when loading fails).
    No proofs in this file (it is extracted). *)
@@ -29,7 +30,7 @@ Definition main_return (r : runner) (o : vm_outcome) : Z :=
       match r with
       | VirtRun | Wrapper => propagate is_int v
       | NanoVmFile => if nano_vm_propagates_result then propagate is_int v else 0
-      | DaemonClient => 0
+      | DaemonClient => if daemon_propagates_result then (propagate is_int v) mod 256 else 0   (* (int)i64 & 0xFF *)
       end
   end.
 Definition exit_status (r : runner) (o : vm_outcome) : Z := main_return r o mod 256.
